@@ -25,6 +25,7 @@ thread_local! {
     /// pool of each simulated task (index = task id)
     static POOL_OF: RefCell<Vec<Option<SharedRef>>> = const { RefCell::new(Vec::new()) };
 }
+#[allow(dead_code)]
 pub fn reset_registry() {
     POOL_OF.with(|p| p.borrow_mut().clear());
 }
